@@ -405,7 +405,9 @@ def memo_key_gaps(f: FuncInfo):
             if not (isinstance(t, ast.Compare) and len(t.ops) == 1 and isinstance(t.ops[0], ast.NotIn) and isinstance(t.comparators[0], ast.Name)):
                 continue
             memo, key = t.comparators[0].id, t.left
-            for st in iff.body:
+            # stores of the memoised answer anywhere under the test (a try around the computation stores in its body and in
+            # its handlers)
+            for st in (x for b in iff.body for x in ast.walk(b)):
                 if isinstance(st, ast.Assign) and isinstance(st.targets[0], ast.Subscript) and isinstance(st.targets[0].value, ast.Name) \
                         and st.targets[0].value.id == memo and norm(st.targets[0].slice) == norm(key):
                     kc = {c for c in chains(key, f.node) if c.split(".")[0] in lvars}
@@ -945,3 +947,78 @@ def optional_number_truth_tests(repo, typer, f: FuncInfo):
                     out.append((n, t, src))
                     break
     return out
+
+
+# ---------------------------------------------------------------------------------------------------------------------- S11
+def _mutable_display(e) -> bool:
+    if isinstance(e, (ast.List, ast.Dict, ast.Set, ast.ListComp, ast.DictComp, ast.SetComp)):
+        return True
+    return isinstance(e, ast.Call) and dotted_of(e.func) in ("list", "dict", "set", "collections.defaultdict", "defaultdict", "collections.OrderedDict",
+                                                            "OrderedDict", "collections.deque", "deque", "collections.Counter", "Counter", "bytearray")
+
+
+def shared_mutable_arguments(repo, typer, ef, modules):
+    """Shared rule S11: [(function, call, argument, what, callee)] where a container that outlives the call - a module-level
+    list / dict / set, or a parameter default that is one - is handed to a package function that writes to that parameter
+    (effect summary: a write rooted at it).  State then leaks from one call into the next: what an aborted call left in the
+    container is seen by every later call."""
+    out = []
+    n_args = 0
+    for mn in modules:
+        m = repo.module(mn)
+        shared = {k: v for k, v in m.assigns.items() if _mutable_display(v)}
+        for f in m.all_funcs:
+            if isinstance(f.node, ast.Lambda):
+                continue
+            defaults = {}
+            a = f.node.args
+            pos = a.posonlyargs + a.args
+            for p_, d in zip(reversed(pos), reversed(a.defaults)):
+                if _mutable_display(d):
+                    defaults[p_.arg] = d
+            for p_, d in zip(a.kwonlyargs, a.kw_defaults):
+                if d is not None and _mutable_display(d):
+                    defaults[p_.arg] = d
+            local = {x.id for x in own_nodes(f.node) if isinstance(x, ast.Name) and not isinstance(x.ctx, ast.Load)}
+            for c in own_nodes(f.node):
+                if not isinstance(c, ast.Call):
+                    continue
+                try:
+                    hits, _ = typer.callees(f, c, False)
+                except Exception:
+                    hits = []
+                for i, arg in enumerate(list(c.args) + [k.value for k in c.keywords]):
+                    if not isinstance(arg, ast.Name):
+                        # a display or any other expression: examined (counted) when the callee writes to that parameter
+                        for g in hits:
+                            if isinstance(g.node, ast.Lambda):
+                                continue
+                            off = 1 if (g.cls is not None and g.kind not in ("staticmethod",) and isinstance(c.func, ast.Attribute)) else 0
+                            pi = i + off if i < len(c.args) else (g.params.index(c.keywords[i - len(c.args)].arg) if c.keywords[i - len(c.args)].arg in g.params else None)
+                            if pi is not None and any(tag == f"p{pi}" for tag, _ in ef.summary(g).mods):
+                                n_args += 1
+                                break
+                        continue
+                    what = None
+                    if arg.id in shared and arg.id not in local and arg.id not in f.params:
+                        what = f"module-level `{arg.id} = {norm(shared[arg.id])[:30]}`"
+                    elif arg.id in defaults and arg.id not in local:
+                        what = f"default `{arg.id}={norm(defaults[arg.id])[:30]}` of {f.local}"
+                    if what is None:
+                        continue
+                    n_args += 1
+                    for g in hits:
+                        if isinstance(g.node, ast.Lambda):
+                            continue
+                        off = 1 if (g.cls is not None and g.kind not in ("staticmethod",) and isinstance(c.func, ast.Attribute)) else 0
+                        if i < len(c.args):
+                            pi = i + off
+                        else:
+                            kw = c.keywords[i - len(c.args)].arg
+                            pi = g.params.index(kw) if kw in g.params else None
+                        if pi is None:
+                            continue
+                        s = ef.summary(g)
+                        if any(tag == f"p{pi}" for tag, _ in s.mods):
+                            out.append((f, c, arg, what, g))
+    return out, n_args
